@@ -177,6 +177,8 @@ def make_user(cx, p):
         if kind == 'const':
             return p[2]
         if kind == 'raise':
+            if p[2] == 0:
+                raise StopIteration()       # a predicate may fail with any exception, this one included (C03-m10)
             raise Boom(p[2])
         if kind == 'data':
             return m.data
@@ -190,6 +192,8 @@ def make_user(cx, p):
             return m.parent.data_name if m.parent else None
         if kind == 'eq_or_raise':
             if m.data == p[2]:
+                if p[3] == 0:
+                    raise StopIteration()
                 raise Boom(p[3])
             return True
         raise ValueError(kind)
@@ -873,6 +877,36 @@ def run_lcase(case):
                     except StopIteration:
                         break
                 ob = ON("iter", xs)
+            elif k == 'itermut':
+                keep.append(list(doc['b']))
+                it = iter(view)
+                first = []
+                for _n in range(op[1]):
+                    try:
+                        first.append(lval(cx, unwrap(next(it))))
+                    except StopIteration:
+                        break
+                mu = op[2]
+                try:
+                    if mu[0] == 'append':
+                        vcounter = label_value(cx, mu[1], vcounter)
+                        view.append(wrap(mu[1]))
+                    elif mu[0] == 'del':
+                        del view[mu[1]]
+                    elif mu[0] == 'pop':
+                        keep.append(view.pop(mu[1]))
+                    else:
+                        vcounter = label_value(cx, mu[2], vcounter)
+                        view[mu[1]] = wrap(mu[2])
+                except (IndexError, TypeError):
+                    pass
+                rest = []
+                while True:
+                    try:
+                        rest.append(lval(cx, unwrap(next(it))))
+                    except StopIteration:
+                        break
+                ob = ON("itermut", [ON("first", first), ON("rest", rest)])
             elif k in ('keep', 'remove'):
                 keep.append(list(doc['b']))
                 calls = []
@@ -1019,8 +1053,14 @@ def run_dcase(case):
     inner_ns = {}
     for j, d in enumerate(case['inner']):
         inner_ns[d['name']] = attr(expr_of(d), **conv_kwargs(d))
+    # Document subclasses are free to be falsy and to override `data`: the descriptors must test `is None` and go
+    # through the `data` property (C18-m11, C18-m12)
+    inner_ns['__bool__'] = lambda self: False
     Inner = type("Inner", (Document,), inner_ns)
-    ns = {}
+    ns = {'__bool__': lambda self: False}
+    envelope = len(case['ops']) % 2 == 1
+    if envelope:
+        ns['data'] = property(lambda self: self._data['payload'])
     for i, d in enumerate(case['decls']):
         e = expr_of(d)
         if d['kind'] == 'attr':
@@ -1033,7 +1073,7 @@ def run_dcase(case):
             else:
                 ns[d['name']] = attr_iter_typed(Inner, e)
     Owner = type("Owner", (Document,), ns)
-    owner = Owner(doc)
+    owner = Owner({'payload': doc, 'meta': 1} if envelope else doc)
 
     class Legacy:
         def __init__(self, d):
